@@ -327,7 +327,9 @@ class Stats:
 class Explorer:
     def __init__(self, max_paths=200000, deadline_s=None, query_timeout_ms=60000, stop_on_violation=True):
         self.solver = z3.Solver()
-        self.solver.set('timeout', query_timeout_ms)
+        self.query_timeout_ms = query_timeout_ms
+        self.fast_timeout_ms = 4000
+        self._last_model_solver = self.solver
         self.stats = Stats()
         self.max_paths = max_paths
         self.deadline = (time.time() + deadline_s) if deadline_s else None
@@ -346,13 +348,27 @@ class Explorer:
     # -- solver helpers
     def _check(self, *extra):
         t0 = time.time()
+        self.solver.set('timeout', self.fast_timeout_ms)
         r = self.solver.check(*extra)
+        self._last_model_solver = self.solver
+        if r == z3.unknown:
+            # the incremental core gave up quickly: decide the same query with a fresh, non-incremental solver (full preprocessing)
+            fresh = z3.Solver()
+            fresh.set('timeout', self.query_timeout_ms)
+            fresh.add(self.solver.assertions())
+            fresh.add(*extra)
+            r = fresh.check()
+            self._last_model_solver = fresh
+            self.stats.fresh_solver_queries = getattr(self.stats, 'fresh_solver_queries', 0) + 1
         self.stats.solver_s += time.time() - t0
         self.stats.queries += 1
         if r == z3.unknown:
             self.stats.unknowns += 1
-            raise Inconclusive('solver returned unknown: %s' % self.solver.reason_unknown())
+            raise Inconclusive('solver returned unknown: %s' % self._last_model_solver.reason_unknown())
         return r == z3.sat
+
+    def _model(self):
+        return self._last_model_solver.model()
 
     def _holds_in_model(self, cond):
         if self.model is None:
@@ -383,15 +399,15 @@ class Explorer:
             # no usable model: establish one for the path so far
             if not self._check():
                 raise PathAbort('path condition unsatisfiable')
-            self.model = self.solver.model()
+            self.model = self._model()
             mv = self._holds_in_model(cond)
             if mv is None:
                 mv = True if self._check(cond) else False
                 if mv:
-                    self.model = self.solver.model()
+                    self.model = self._model()
         other = z3.Not(cond) if mv else cond
         if self._check(other):
-            entry = [mv, True, self.solver.model(), payload]
+            entry = [mv, True, self._model(), payload]
         else:
             entry = [mv, False, None, payload]
         self.stack.append(entry)
@@ -420,7 +436,7 @@ class Explorer:
             return
         if not self._check():
             raise PathAbort('assumption unsatisfiable')
-        self.model = self.solver.model()
+        self.model = self._model()
 
     def _uniq(self, name):
         n = self.counters.get(name, 0)
@@ -483,7 +499,7 @@ class Explorer:
         if self.model is None:
             if not self._check():
                 raise PathAbort('path condition unsatisfiable')
-            self.model = self.solver.model()
+            self.model = self._model()
         return self.model
 
     def ev(self, x):
